@@ -399,8 +399,14 @@ func (k c09) Run(c *rt.Ctx) {
 			switch groups[gi].T {
 			case gen.TN:
 				cond = gen.Bin(">=", ref, gen.Int(-100000))
+				if r.Bool() { // selective: the named field decides, pair by pair, who reaches the groups
+					cond = gen.Bin("!=", ref, gen.Int(int64(r.Range(0, 3))))
+				}
 			case gen.TS:
 				cond = gen.Bin("!=", ref, gen.Str("no such group"))
+				if r.Bool() {
+					cond = gen.Bin("!=", ref, gen.Str([]string{"a", "ab", "b", "1", "12", "A", "AB", ""}[r.Intn(8)]))
+				}
 			}
 			if cond != nil {
 				if r.Bool() {
